@@ -8,6 +8,8 @@ With B = 3 draws (b, a, a) and alpha = 0.9 the code's quantile levels are 0 and 
 without interpolation error: Q(0) = b, Q(2/3) = a.  All values are k/1000.0 computed the same way on both sides,
 so exact ties (a bound exactly 0) are bit-exact.
 """
+import os
+
 import numpy as np
 import pandas as pd
 
@@ -130,12 +132,9 @@ def run_summary_injected(ns, alpha=0.9):
     kw = dict(lhs_called_contests=list(ns["lhs"]), rhs_called_contests=list(ns["rhs"]))
     model.get_aggregate_predictions(r, nr, x, agg, "margin", **kw)
     model.get_aggregate_prediction_intervals(r, nr, x, agg, alpha, None, "margin", stop_model_call=list(ns["stop"]), **kw)
-    weights = {c: ns["w"][c] for c in contests}
-    extra = ns["nweights"] - len(contests)
-    for k in range(max(0, extra)):
+    weights = {c: ns["w"][c] for c in contests[: max(0, min(len(contests), ns["nweights"]))]}  # {} when nweights = 0
+    for k in range(max(0, ns["nweights"] - len(contests))):
         weights[f"zz{k}"] = 1
-    if extra < 0:
-        weights.pop(contests[-1])
     try:
         out = model.get_national_summary_estimates(weights, ns["base"], alpha)["margin"]
     except BootstrapElectionModelException:
@@ -242,6 +241,29 @@ def client_record(seed, with_lists=True):
         lhs = [c for c in contests if roles[c] == "L"]
         rhs = [c for c in contests if roles[c] == "R"]
         stop = [c for c in contests if rnd.random() < 0.25]
+    pres = (not district) and rnd.random() < 0.3 and frac < 1.0
+    if pres:
+        # down-ballot correction from a presidential race in the same units (three stored files, served by the fake
+        # object store): for a few outstanding units the presidential model predicts a near-unanimous result and this
+        # race runs ahead of it, so the corrected margin overshoots what the outstanding vote allows - the clips must hold
+        mp["correct_from_presidential"] = True
+        m = cur.merge(pre[["geographic_unit_fips", "baseline_dem", "baseline_gop"]], on="geographic_unit_fips")
+        key = m.geographic_unit_fips.str.split("_").str[1]
+        two = (m.results_dem + m.results_gop).astype(float)
+        marg = np.divide((m.results_dem - m.results_gop).astype(float), np.maximum(two, 1.0))
+        nonrep_mask = (m.percent_expected_vote < 100).to_numpy()
+        hot = np.zeros(len(m), dtype=bool)
+        hot[np.where(nonrep_mask)[0][:5]] = True
+        pres_marg_partial = np.clip(marg - 0.06, -0.99, 0.99)
+        pres_pred_norm = np.where(hot, rnd.choice([0.995, -0.995]), np.clip(pres_marg_partial + 0.01, -0.99, 0.99))
+        final_turnout = np.maximum(two * 100.0 / np.maximum(m.percent_expected_vote.to_numpy(), 1), 1.0)
+        root = f"{os.environ['MODEL_S3_PATH_ROOT']}-{os.environ['DATA_ENV']}/{synth.EID}"
+        synth.OBJECTS[f"{root}/data/P/data_county.csv"] = pd.DataFrame({"geographic_unit_fips": key, "baseline_dem": m.baseline_dem, "baseline_gop": m.baseline_gop}).to_csv(index=False)
+        synth.OBJECTS[f"{root}/results/P/county/current.csv"] = pd.DataFrame({"geographic_unit_fips": key, "results_weights": two}).to_csv(index=False)
+        synth.OBJECTS[f"{root}/predictions/P/county/unit_data/current.csv"] = pd.DataFrame(
+            {"postal_code": m.postal_code, "geographic_unit_fips": key, "pred_margin": pres_pred_norm * final_turnout, "reporting": (~nonrep_mask).astype(int),
+             "unit_category": "expected", "results_margin": pres_marg_partial * two, "pred_turnout": final_turnout}
+        ).to_csv(index=False)
     kw = dict(estimands=("margin",), pi_method="bootstrap", features=("baseline_normalized_margin", "x1"), office=office, gut=gut,
               aggregates=aggs + ["unit"], model_parameters=mp, pis=alphas, fixed_effects=fe)
     c1, res1 = synth.run_client(pre, cur, lhs_called_contests=lhs, rhs_called_contests=rhs, stop_model_call=stop, **kw)
@@ -286,7 +308,7 @@ def client_record(seed, with_lists=True):
             }
         )
     return {"kind": "client", "lhs": lhs, "rhs": rhs, "stop": stop, "alphas": alphas, "district": district, "B": mp["B"],
-            "lambda": "cv" if lam is None else lam, "stress": stress, "fully_reported": frac == 1.0, "groups": groups, "units": units}
+            "lambda": "cv" if lam is None else lam, "stress": stress, "fully_reported": frac == 1.0, "presidential": bool(pres), "groups": groups, "units": units}
 
 
 def known_part_record(rnd):
